@@ -168,6 +168,9 @@ impl fmt::Display for CompoundVariable {
                     Primitive::String(s) => s.clone(),
                     _ => format!("{{{}}}", i),
                 },
+                // an index variable whose own name starts with an underscore needs its braces:
+                // `x__a` is the literal name fragment `_a`, not the value of `_a`
+                PreExp::Variable(name) if name.value().starts_with('_') => format!("{{{}}}", i),
                 PreExp::Variable(name) => name.value().clone(),
                 _ => format!("{{{}}}", i),
             })
